@@ -11,7 +11,7 @@
 (*         inequality (soundness rule S2, bin/ratcheck.py)                  *)
 (*   cov : which clauses were evaluated non-vacuously on this line          *)
 (***************************************************************************)
-EXTENDS Integers, Sequences, FiniteSets, TLC, Json, IOUtils, Rat, SluStore, SluFactor, SluSolve, SluEquil, SluCond, SluOrder, SluMatch
+EXTENDS Integers, Sequences, FiniteSets, TLC, Json, IOUtils, Rat, SluStore, SluFactor, SluSolve, SluEquil, SluCond, SluOrder, SluMatch, SluHeapOps
 
 Tr == ndJsonDeserialize(IOEnv.TRACE)
 \* MODE = "light": storage / allocator clauses only (the numeric replay of the factorization is skipped;
@@ -759,6 +759,20 @@ BridgeVerdict(ev, sc) ==
 (* computes from the violated preconditions, every caller object is byte-   *)
 (* identical and no allocation is retained.                                 *)
 (***************************************************************************)
+(***************************************************************************)
+(* MC64 heap routines driven one operation at a time (C17): hp = members of *)
+(* the abstract priority queue before the operation.                        *)
+(***************************************************************************)
+HeapMembers(hp, ev) == IF ev.op = "I" THEN hp \cup {ev.arg} ELSE IF ev.op \in {"E", "F"} THEN hp \ {ev.removed} ELSE hp
+HeapVerdict(ev, hp) ==
+  LET n == ev.n
+      key == [i \in 1..n |-> ev.keys[i]]
+      mem == HeapMembers(hp, ev)
+      rep == RepOK(ev.iway, mem, key, ev.qlen, ev.Q, ev.L, n)
+      bad == (IF ~rep THEN {"C17.heap_representation"} ELSE IF ~HeapOrder(ev.iway, key, ev.qlen, ev.Q) THEN {"C17.heap_order"} ELSE {})
+             \cup (IF ev.op = "E" /\ ~BestOf(ev.iway, hp, key, ev.removed) THEN {"C17.heap_root_is_not_a_best_member"} ELSE {})
+  IN [bad |-> bad, arb |-> {}, cov |-> {"C17.heap_op_" \o ev.op}]
+
 ScreenI == INSTANCE SluScreen WITH done <- FALSE
 ScreenVerdict(ev) ==
   LET corrs == {ev.corrupt[i] : i \in 1..Len(ev.corrupt)}
@@ -782,6 +796,7 @@ Verdict(ev, pm, sc) ==
         [] ev.fn = "lacon" -> LaconVerdict(ev)
         [] ev.fn = "order" -> OrderVerdict(ev, sc)
         [] ev.fn = "ldperm" -> MatchVerdict(ev)
+        [] ev.fn = "heap" -> HeapVerdict(ev, sc.hp)
         [] ev.fn = "read" -> ReaderVerdict(ev)
         [] ev.fn = "bridge" -> BridgeVerdict(ev, sc)
         [] ev.fn = "trsv" -> TrsvVerdict(ev)
@@ -803,7 +818,7 @@ Verdict(ev, pm, sc) ==
 
 VARIABLES l, pm, sc, solo      \* solo: scenario id -> outputs of its calls when executed alone (C09)
 vars == <<l, pm, sc, solo>>
-NoCtx == [mode |-> "", cnt |-> 0, first |-> <<>>, repeat |-> FALSE, gref |-> <<>>, bown |-> <<0, 0, 0, 0>>, ordref |-> <<>>, rf |-> [j |-> -1, count |-> 0, want |-> FALSE, stepped |-> FALSE], ref |-> <<>>, refd2 |-> FALSE, leaked |-> FALSE, memfail |-> FALSE, ty |-> "d", liw |-> 4, id |-> "", nexp |-> 0, memev |-> FALSE]
+NoCtx == [mode |-> "", cnt |-> 0, first |-> <<>>, repeat |-> FALSE, gref |-> <<>>, bown |-> <<0, 0, 0, 0>>, ordref |-> <<>>, rf |-> [j |-> -1, count |-> 0, want |-> FALSE, stepped |-> FALSE], ref |-> <<>>, refd2 |-> FALSE, leaked |-> FALSE, memfail |-> FALSE, ty |-> "d", liw |-> 4, id |-> "", nexp |-> 0, memev |-> FALSE, hp |-> {}]
 TInit == l = 1 /\ pm = <<>> /\ sc = NoCtx /\ solo = <<>>
 \* what a call returns to its caller (everything but the allocation ledger, which is global)
 ProjKeys == {"fn", "info", "equed", "perm_c", "perm_r", "etree", "R", "C", "L", "U", "X1", "B1", "A1v", "rcond", "rpg", "ferr", "berr", "steps",
@@ -843,7 +858,8 @@ TNext == /\ l <= Len(Tr)
                                      !.bown = (IF ev.fn = "bridge" /\ ev.iopt = 1 THEN [sc.bown EXCEPT ![ev.slot + 1] = ev.live_delta] ELSE sc.bown),
                                      !.ordref = (IF Has(v, "ord") THEN v.ord ELSE sc.ordref), !.rf = NoCtx.rf, !.leaked = sc.leaked \/ (Has(ev, "ledger") /\ ev.ledger.live_internal # 0), !.memfail = FALSE, !.liw = (IF Has(ev, "itsz") THEN ev.itsz ELSE sc.liw), !.nexp = 0, !.memev = FALSE,
                                      !.ref = IF sc.ref = <<>> /\ Has(v, "digs") THEN v.digs ELSE sc.ref,
-                                     !.refd2 = IF sc.ref = <<>> /\ Has(v, "digs") THEN v.d2 ELSE sc.refd2]
+                                     !.refd2 = IF sc.ref = <<>> /\ Has(v, "digs") THEN v.d2 ELSE sc.refd2,
+                                     !.hp = IF ev.fn = "heap" THEN HeapMembers(sc.hp, ev) ELSE sc.hp]
                      ELSE sc
          /\ l' = l + 1
 TraceSpec == TInit /\ [][TNext]_vars
